@@ -71,8 +71,13 @@ impl Prop for P {
         let cap: usize = p[4].parse().unwrap();
         let ops = parse_ops(p[5]);
         // the builder writes to memory (cap 0) or to a sink that accepts at most `cap` bytes per write call
+        let mut evictions = String::from("na");
         let bytes = if cap == 0 {
-            exec_build("extend", "raw_loop", ty, rows, cols, &ops).bytes.unwrap()
+            let o = exec_build("extend", "raw_loop", ty, rows, cols, &ops);
+            if let Some(st) = o.stats {
+                evictions = st[2].to_string();
+            }
+            o.bytes.unwrap()
         } else {
             struct Chunky(Vec<u8>, usize);
             impl std::io::Write for Chunky {
@@ -92,7 +97,12 @@ impl Prop for P {
                     Op::Add(k) => b.add(k).unwrap(),
                 }
             }
-            b.into_inner().unwrap().0
+            let h = crate::hooks::stats_handle(&b);
+            let w = b.into_inner().unwrap().0;
+            if let Some(h) = h {
+                evictions = h[2].load(std::sync::atomic::Ordering::SeqCst).to_string();
+            }
+            w
         };
         // what was inserted (a repeated add is one key)
         let mut kvs: Vec<(Vec<u8>, u64)> = vec![];
@@ -117,6 +127,7 @@ impl Prop for P {
                 x = e;
             }
         }
-        format!("S:v=3;ty={};c={};len={};nodes={};ck=ok\tM:bytes={}\tX:{}", ty, fmt_kvs(&kvs), kvs.len(), info.emitted, hex(&bytes), x)
+        // E: evictions of this build (see core::exec_build_case)
+        format!("S:v=3;ty={};c={};len={};nodes={};ck=ok\tM:bytes={}\tX:{}\tE:{}", ty, fmt_kvs(&kvs), kvs.len(), info.emitted, hex(&bytes), x, evictions)
     }
 }
